@@ -239,7 +239,8 @@ func checkC01(w *World, r *Report) {
 	checkBatchLoop(w, r, pr)
 	r.Rule("C01.R5", "an accepted message is processed without further stimulus (the C03 wake-up protocol) and from a ring with sound length accounting (C14.R2/R3): necessary for 'delivered exactly once'", 8)
 	importRules(w, r, checkC03, "C03", "C01.R5", nil)
-	importRules(w, r, checkC14, "C14", "C01.R5", func(o *Obligation) bool { return o.Rule == "C14.R2" || o.Rule == "C14.R3" || o.Rule == "C14.R4" })
+	importRules(w, r, checkC14, "C14", "C01.R5", nil)
+	importRules(w, r, checkC02, "C02", "C01.R5", func(o *Obligation) bool { return o.Rule == "C02.R2" || o.Rule == "C02.R3" || o.Rule == "C02.R1" })
 }
 
 // loopExitEdges: edges on which the worker loop leaves without a batch (stopped / empty pop).
@@ -758,6 +759,20 @@ func checkC10(w *World, r *Report) {
 			}
 		}
 		r.Check(okG, "C10.R5", fname(a.regGet)+":looks-up-pid.ID", "get looks the process up by pid.ID", w.fnPos(a.regGet), "get does not look up lookup[pid.ID]")
+	}
+	// R6: the id is released when the actor stops (even if its Stopped handler panics)
+	r.Rule("C10.R6", "the stop function unregisters the actor on every path, before Stopped is delivered", 1)
+	if pr := w.findProcRoles(); !pr.fail(r, "C10.R6") {
+		sg := w.FG(pr.stopFn)
+		Rm := w.Nodes(sg, EvCall("Registry.Remove", a.regRemove), true)
+		ok := sg.AfterEntry(Rm)
+		for _, d := range members(w.Nodes(sg, pr.evDeliver(), false)) {
+			if !sg.Before(Rm, d) {
+				ok = false
+			}
+		}
+		r.Check(ok, "C10.R6", fname(pr.stopFn)+":releases-id", "Registry.Remove(p.pid) precedes the Stopped delivery on every path of the stop function", w.fnPos(pr.stopFn),
+			"a stopped actor whose Stopped handler panics stays registered: GetPID keeps answering and the id can never be spawned again")
 	}
 	// R4
 	{
